@@ -2,6 +2,7 @@ import YaqsModel.Lemmas.Layers
 import YaqsModel.Lemmas.ColumnsDense
 import YaqsModel.Lemmas.ColumnsValues
 import YaqsModel.Props.C02
+import YaqsModel.Lemmas.ColumnsExec
 
 /-!
 # C16 — barriers / measurements are transparent; labelled barriers sample where they stand
@@ -681,3 +682,116 @@ example :
   decide
 
 end Yaqs.ColumnValues.Example
+
+
+/-!
+## extension (builder x16d): the column VALUES as an executable function over ℚ(i), tied exactly
+
+`Model/ColumnsExec.lean` computes, for a circuit over gates with rational matrices, the whole result table of a sampling run
+(`colValuesExec`: one row of `re ⟨ψ|O|ψ⟩` per `evaluate_observables` call).  The two theorems below say that this function is
+not a second semantics: its states are the `colStates` of the dense-operator instance of `column_state_dense` over ℚ(i) and its
+numbers are the dense expectation values `ψ† (O ψ)` with `O = ObsData.op` — the operator of `column_values`.  The driver request
+`colvals` evaluates it and `harness/impl/C16.py` (kind `column-exact`) compares every entry with the real `simulator.run`.
+-/
+namespace Yaqs.ColumnsExec
+
+open Matrix Yaqs.Embed Yaqs.Layers Yaqs.ColumnValues
+
+/-- **C16.X1 `colValuesExec_is_column_values`** (the executable result table IS the table of column values).  For every
+    register width `n`, every gate table `g1` / `g2` over ℚ(i), every initial state `v0` (tabulated amplitudes), every circuit
+    `raw` as the user wrote it (raw labels; barriers of any width, measurements anywhere) and every list of one-site /
+    adjacent two-site observable objects: the sampling run terminates with some event list `evs`; the table computed by
+    `colValuesExec` is, row by row, `(column, [re ψ† (O_o ψ) for o in obs])` for the states `ψ` that the dense-operator
+    semantics records (`colStates` with `denseSem` acting by `mulVec` — the instance of `column_state_dense`, here over ℚ(i)),
+    `O_o = ObsData.op` the object's own operator embedded on its own site(s); and the rows are exactly the allocated columns
+    `0 … numColumns − 1`, each once, in order (`columns`).  Covers: `evaluate_observables` values of `_run_strong_sim` with
+    `sample_layers=True`, all columns, under the exactness hypotheses listed for `column_values`. -/
+theorem colValuesExec_is_column_values (n : Nat) (g1 : Nat → M2) (g2 : Nat → M4) (v0 : Vec n) (raw : List RawInstr)
+    (obs : List (ObsExec n)) :
+    ∃ evs, runCircuit .strongSample raw = some evs ∧
+      colValuesExec n g1 g2 v0 raw obs = some
+        ((colStates (mulVecAction _) (denseSem n (mat1 g1) (mat2 g2)) (Vec.get n v0) evs).map fun p =>
+          (p.1, obs.map fun o => (star p.2 ⬝ᵥ (o.toData.op *ᵥ p.2)).re)) ∧
+      (colValuesExec n g1 g2 v0 raw obs).map (fun t => t.map Prod.fst)
+        = some (List.range (numColumns isSampleLabel .strongSample raw)) := by
+  obtain ⟨evs, hrun⟩ := Option.isSome_iff_exists.mp (run_terminates .strongSample raw)
+  have h := colValuesExec_eq n g1 g2 v0 raw obs
+  rw [hrun] at h
+  refine ⟨evs, hrun, h, ?_⟩
+  rw [h]
+  simp only [Option.map_some, List.map_map]
+  have : (Prod.fst ∘ denseValues obs : Nat × (Cfg n → CRat) → Nat) = Prod.fst := rfl
+  rw [this, colStates_cols, columns raw evs hrun]
+
+/-- **C16.X2 `colValuesExec_at_barrier`** (what the executable table holds in the column of a labelled barrier).  If the
+    circuit, seen through the one label predicate, is `pre ++ sbarrier qs :: post` with the labelled barrier full-width (D27
+    exclusion: `hpre`, `hpost`) and `k` labelled barriers in front of it, then the table is `l₁ ++ (k+1, row) :: l₂` with
+    `l₁` holding exactly the columns `0 … k`, and `row = [re ψ† (O_o ψ) for o in obs]` for
+    `ψ = (G_m ⋯ G_1) ψ₀`, `G_1 … G_m` the embedded gates in front of the barrier in PROGRAM order (`column_state_dense`). -/
+theorem colValuesExec_at_barrier (n : Nat) (g1 : Nat → M2) (g2 : Nat → M4) (v0 : Vec n) (raw : List RawInstr)
+    (obs : List (ObsExec n)) (pre post : List Instr) (qs : List Nat)
+    (hraw : raw.map (classify isSampleLabel) = pre ++ .sbarrier qs :: post)
+    (hpre : ∀ j ∈ pre, ∃ q ∈ j.qubits, q ∈ qs) (hpost : ∀ j ∈ post, ∃ q ∈ j.qubits, q ∈ qs) :
+    ∃ l1 l2,
+      colValuesExec n g1 g2 v0 raw obs = some (l1 ++ ((pre.filter Instr.isSB).length + 1,
+        obs.map fun o =>
+          let ψ := (((gates pre).map (denseSem n (mat1 g1) (mat2 g2))).reverse.prod) *ᵥ Vec.get n v0
+          (star ψ ⬝ᵥ (o.toData.op *ᵥ ψ)).re) :: l2) ∧
+      l1.map Prod.fst = List.range ((pre.filter Instr.isSB).length + 1) := by
+  obtain ⟨evs, l1, l2, hrun, hcs, hl1⟩ := column_state_dense n (mat1 g1) (mat2 g2) (countMid isSampleLabel raw)
+    pre post qs hpre hpost (Vec.get n v0)
+  have hrun' : runCircuit .strongSample raw = some evs := by
+    unfold runCircuit runCircuitWith
+    simp only [Mode.sampling, if_true]
+    rw [hraw]
+    exact hrun
+  have h := colValuesExec_eq n g1 g2 v0 raw obs
+  rw [hrun', Option.map_some, hcs, List.map_append, List.map_cons] at h
+  refine ⟨l1.map (denseValues obs), l2.map (denseValues obs), h, ?_⟩
+  rw [List.map_map]
+  exact hl1
+
+/-- **C16.X3 `pauli_table`** (the observable table of the `colvals` request).  Whatever letter the request names, the matrix
+    the driver puts into the observable object is a Hermitian involution (`P† = P`, `P·P = 1`), so the number
+    `re ψ† (O ψ)` it reports is the expectation value of an observable with spectrum `±1`; letters other than `X Y Z` are
+    rejected.  (`kronPair P Q` is then `P ⊗ Q` on the adjacent pair, index `(site p, site p+1)`.) -/
+theorem pauli_table (ch : Char) (P : M2) (h : pauli? ch = some P) :
+    (Matrix.of P)ᴴ = Matrix.of P ∧ Matrix.of P * Matrix.of P = 1 ∧ (ch = 'X' ∨ ch = 'Y' ∨ ch = 'Z') := by
+  unfold pauli? at h
+  split at h
+  · cases h; refine ⟨?_, ?_, Or.inl rfl⟩ <;> decide +kernel
+  · cases h; refine ⟨?_, ?_, Or.inr (Or.inl rfl)⟩ <;> decide +kernel
+  · cases h; refine ⟨?_, ?_, Or.inr (Or.inr rfl)⟩ <;> decide +kernel
+  · cases h
+
+example : pauli? 'Y' = some (Gates.y CRat.I) ∧ pauli? 'H' = none := by decide
+
+end Yaqs.ColumnsExec
+
+namespace Yaqs.ColumnsExec.Example
+open Yaqs Yaqs.Layers Yaqs.ColumnsExec
+
+/-- gate table of the example: one-qubit tags 1 = X, 2 = ry at `(3/5, 4/5)`, 3 = rz at `(4/5, 3/5)`; two-qubit tags 1 = CX, otherwise CZ -/
+def g1 : Nat → M2 := fun t =>
+  if t = 1 then Gates.x else if t = 2 then Gates.ry (CRat.ofRat (3/5)) (CRat.ofRat (4/5))
+  else Gates.rz CRat.I (CRat.ofRat (4/5)) (CRat.ofRat (3/5))
+def g2 : Nat → M4 := fun t => if t = 1 then ofM4 Gates.cx else ofM4 Gates.cz
+def lab : Option (List Nat) := some (" Sample_Observables".toList.map Char.toNat)
+/-- `ry 1; x 0; cx 1 0 (reversed orientation); measure 2` — labelled barrier on `[2,0,1]` — `rz 2; cz 2 1; barrier 0` -/
+def raw : List RawInstr :=
+  [.gate1 2 1, .gate1 1 0, .gate2 1 1 0, .measure 2 0, .barrier [2, 0, 1] lab, .gate1 3 2, .gate2 2 2 1, .barrier [0] none]
+def obs : List (ObsExec 3) := [.one 1 Gates.z, .two 0 (by decide) (kronPair Gates.x Gates.x), .one 0 (Gates.y CRat.I)]
+
+/-- non-vacuity of `colValuesExec_is_column_values` / `colValuesExec_at_barrier`: three columns with non-trivial rational
+    values (`⟨Z₁⟩ = 1` before, `−7/25` after `ry` at `(3/5,4/5)`; `⟨X₀X₁⟩ = 24/25` after the reversed CX), and the circuit
+    meets the hypotheses of the barrier theorem -/
+example :
+    colValuesExec 3 g1 g2 (basisVec 3 (fun _ => 0)) raw obs
+      = some [(0, [1, 0, 0]), (1, [-7/25, 24/25, 0]), (2, [-7/25, 24/25, 0])] ∧
+    raw.map (classify isSampleLabel)
+      = [.gate1 2 1, .gate1 1 0, .gate2 1 1 0, .measure 2 0] ++ .sbarrier [2, 0, 1] :: [.gate1 3 2, .gate2 2 2 1, .barrier [0]] ∧
+    (∀ j ∈ ([.gate1 2 1, .gate1 1 0, .gate2 1 1 0, .measure 2 0] : List Instr), ∃ q ∈ j.qubits, q ∈ [2, 0, 1]) ∧
+    (∀ j ∈ ([.gate1 3 2, .gate2 2 2 1, .barrier [0]] : List Instr), ∃ q ∈ j.qubits, q ∈ [2, 0, 1]) := by
+  decide +kernel
+
+end Yaqs.ColumnsExec.Example
